@@ -250,7 +250,8 @@ def main():
         return worker_main()
     sys.path.insert(0, os.path.dirname(os.path.dirname(os.path.abspath(__file__))))
     from vlib import core, cy
-    paths = [a for a in sys.argv[1:] if not a.startswith('--')]
+    skip = {sys.argv[i + 1] for i, a in enumerate(sys.argv[:-1]) if a in ('--max-tests', '--summary')}
+    paths = [a for a in sys.argv[1:] if not a.startswith('--') and a not in skip]
     maxtests = 1500
     if '--max-tests' in sys.argv:
         maxtests = int(sys.argv[sys.argv.index('--max-tests') + 1])
